@@ -1,5 +1,6 @@
 import CasbinModel.Enforcer
 import CasbinModel.Lemmas.Store
+import CasbinModel.Lemmas.Batch
 /-!
 # C14 — Change notifications are a faithful changelog
 
@@ -135,6 +136,133 @@ theorem clear_notifies (e : Enforcer) (hl : Live e) (hs : e.autoSave = false) (h
     e.clearPolicy.1.log = e.log ++ [Event.clearPolicy] ∧ e.clearPolicy.1.store = e.store.clear := by
   unfold Enforcer.clearPolicy
   simp [hs, hb, Enforcer.emit, hl.watcher, hl.one]
+
+/-! ### Batch and filtered operations -/
+
+theorem linkUpdate_store_log (x : Enforcer) (changed : Bool) (sec pt : String) (ins : Bool) (rules : List Rule) (ret : Res) :
+    (x.linkUpdate changed sec pt ins rules ret).1.store = x.store ∧
+    (x.linkUpdate changed sec pt ins rules ret).1.log = x.log := by
+  unfold Enforcer.linkUpdate
+  split
+  · exact ⟨rfl, rfl⟩
+  · split
+    · exact ⟨rfl, rfl⟩
+    · split <;> exact ⟨rfl, rfl⟩
+
+/-- a batch addition delivers one event carrying exactly the batch iff the store changed -/
+theorem addPolicies_notifies (e : Enforcer) (sec pt : String) (rules : List Rule) (hs : e.autoSave = false) (hl : Live e) :
+    let r := e.addPolicies sec pt rules
+    let changed := (e.store.addPolicies sec pt rules).2
+    r.1.store = (e.store.addPolicies sec pt rules).1 ∧
+    r.1.log = e.log ++ (if changed then [Event.addPolicies sec pt rules] else []) := by
+  simp only [Enforcer.addPolicies, hs, Bool.false_eq_true, if_false]
+  cases hc : (e.store.addPolicies sec pt rules).2 with
+  | false =>
+    simp only [Bool.false_and, Bool.false_eq_true, if_false]
+    rw [(linkUpdate_store_log _ _ _ _ _ _ _).1, (linkUpdate_store_log _ _ _ _ _ _ _).2]; simp
+  | true =>
+    simp only [hl.notify, Bool.and_self, if_true]
+    rw [(linkUpdate_store_log _ _ _ _ _ _ _).1, (linkUpdate_store_log _ _ _ _ _ _ _).2]
+    simp [Enforcer.emit, hl.watcher, hl.one]
+
+theorem removePolicies_notifies (e : Enforcer) (sec pt : String) (rules : List Rule) (hs : e.autoSave = false) (hl : Live e) :
+    let r := e.removePolicies sec pt rules
+    let changed := (e.store.removePolicies sec pt rules).2
+    r.1.store = (e.store.removePolicies sec pt rules).1 ∧
+    r.1.log = e.log ++ (if changed then [Event.removePolicies sec pt rules] else []) := by
+  simp only [Enforcer.removePolicies, hs, Bool.false_eq_true, if_false]
+  cases hc : (e.store.removePolicies sec pt rules).2 with
+  | false =>
+    simp only [Bool.false_and, Bool.false_eq_true, if_false]
+    rw [(linkUpdate_store_log _ _ _ _ _ _ _).1, (linkUpdate_store_log _ _ _ _ _ _ _).2]; simp
+  | true =>
+    simp only [hl.notify, Bool.and_self, if_true]
+    rw [(linkUpdate_store_log _ _ _ _ _ _ _).1, (linkUpdate_store_log _ _ _ _ _ _ _).2]
+    simp [Enforcer.emit, hl.watcher, hl.one]
+
+/-- a filtered removal delivers one event carrying exactly the removed rules iff something was removed -/
+theorem removeFiltered_notifies (e : Enforcer) (sec pt : String) (idx : Nat) (vals : List String)
+    (hs : e.autoSave = false) (hl : Live e) :
+    let r := e.removeFiltered sec pt idx vals
+    let m := e.store.removeFiltered sec pt idx vals
+    r.1.store = m.1 ∧
+    r.1.log = e.log ++ (if m.2.1 then [Event.removeFiltered sec pt m.2.2] else []) := by
+  simp only [Enforcer.removeFiltered, hs, Bool.false_eq_true, if_false]
+  cases hc : (e.store.removeFiltered sec pt idx vals).2.1 with
+  | false =>
+    simp only [Bool.false_and, Bool.false_eq_true, if_false]
+    rw [(linkUpdate_store_log _ _ _ _ _ _ _).1, (linkUpdate_store_log _ _ _ _ _ _ _).2]; simp
+  | true =>
+    simp only [hl.notify, Bool.and_self, if_true]
+    rw [(linkUpdate_store_log _ _ _ _ _ _ _).1, (linkUpdate_store_log _ _ _ _ _ _ _).2]
+    simp [Enforcer.emit, hl.watcher, hl.one]
+
+/-- **Replica follows a batch addition**: applying the delivered batch rule by rule gives the new store
+(and a call that reports no change delivers nothing and leaves the store alone) -/
+theorem replica_follows_addPolicies (e : Enforcer) (sec pt : String) (rules : List Rule) (hs : e.autoSave = false) (hl : Live e) :
+    let r := e.addPolicies sec pt rules
+    ((r.1.log.drop e.log.length).foldl applyEvent e.store).getPolicy = r.1.store.getPolicy := by
+  obtain ⟨h1, h2⟩ := addPolicies_notifies e sec pt rules hs hl
+  simp only at h1 h2 ⊢
+  rw [h1, h2]
+  simp only [List.drop_left]
+  funext sec' pt'
+  unfold Store.addPolicies
+  cases hf : e.store.find sec pt with
+  | none => simp
+  | some d =>
+    simp only
+    by_cases hany : rules.any (fun r => decide (r ∈ d.policy)) = true
+    · simp [hany]
+    · simp only [hany, Bool.false_eq_true, if_false, if_true, List.foldl_cons, List.foldl_nil, applyEvent]
+      rw [Store.foldAdd_getPolicy, Store.getPolicy_update' e.store sec pt sec' pt' (fun pol => OrdSet.addAll pol rules)]
+
+/-- **Replica follows a batch removal** -/
+theorem replica_follows_removePolicies (e : Enforcer) (sec pt : String) (rules : List Rule) (hs : e.autoSave = false) (hl : Live e) :
+    let r := e.removePolicies sec pt rules
+    ((r.1.log.drop e.log.length).foldl applyEvent e.store).getPolicy = r.1.store.getPolicy := by
+  obtain ⟨h1, h2⟩ := removePolicies_notifies e sec pt rules hs hl
+  simp only at h1 h2 ⊢
+  rw [h1, h2]
+  simp only [List.drop_left]
+  funext sec' pt'
+  unfold Store.removePolicies
+  cases hf : e.store.find sec pt with
+  | none => simp
+  | some d =>
+    simp only
+    by_cases hany : rules.any (fun r => decide (r ∉ d.policy)) = true
+    · have hex : ∃ x, x ∈ rules ∧ ¬ x ∈ d.policy := by simpa using hany
+      simp [hex]
+    · simp only [hany, Bool.false_eq_true, if_false, if_true, List.foldl_cons, List.foldl_nil, applyEvent]
+      rw [Store.foldRemove_getPolicy, Store.getPolicy_update' e.store sec pt sec' pt' (fun pol => OrdSet.removeAll pol rules)]
+
+/-- **Replica follows a filtered removal**: removing the delivered rules one by one from a replica equal
+to the (duplicate-free) store gives the new store -/
+theorem replica_follows_removeFiltered (e : Enforcer) (sec pt : String) (idx : Nat) (vals : List String)
+    (hs : e.autoSave = false) (hl : Live e) (hw : e.store.WF) :
+    let r := e.removeFiltered sec pt idx vals
+    ((r.1.log.drop e.log.length).foldl applyEvent e.store).getPolicy = r.1.store.getPolicy := by
+  obtain ⟨h1, h2⟩ := removeFiltered_notifies e sec pt idx vals hs hl
+  simp only at h1 h2 ⊢
+  rw [h1, h2]
+  simp only [List.drop_left]
+  funext sec' pt'
+  unfold Store.removeFiltered
+  by_cases hv : vals.isEmpty = true
+  · simp [hv]
+  · simp only [hv, Bool.false_eq_true, if_false]
+    cases hf : e.store.find sec pt with
+    | none => simp
+    | some d =>
+      simp only
+      by_cases hem : (d.policy.filter (filterMatch idx vals)).isEmpty = true
+      · simp [hem]
+      · simp only [hem, Bool.false_eq_true, if_false, if_true, List.foldl_cons, List.foldl_nil, applyEvent]
+        rw [Store.foldRemove_getPolicy, Store.getPolicy_update' e.store sec pt sec' pt' (fun pol => pol.filter (fun r => !filterMatch idx vals r))]
+        have hd : e.store.getPolicy sec pt = d.policy := by simp [Store.getPolicy, hf]
+        have hnd : d.policy.Nodup := by have := hw sec pt; rwa [hd] at this
+        rw [hd, OrdSet.removeAll_filter d.policy hnd]
 
 /-- when the adapter vetoes, nothing is delivered -/
 theorem rejected_add_silent (e : Enforcer) (sec pt : String) (rule : Rule) (hs : e.autoSave = true)
